@@ -311,12 +311,15 @@ def canon(p, o, with_tags=True):
     for v in o['vals']:
         if v[0] == 'draw':
             per[paths[v[1]]].append(('draw', v[2], v[4], v[5]))
+        elif v[0] == 'q':           # results of the TempoClock quantisation API / scheduled functions (no model: NRT vs RT only)
+            per[paths[v[1]]].append(('qfn' if v[3] == 'fn' else 'q', v[2], v[3], json.dumps(v[4:])))
         else:
             per[paths[v[1]]].append(('flow', v[2], v[3], v[4]))
     # per path the events and the values are two interleaved logs: keep them as two lists
     per2 = {}
     for pp, items in per.items():
-        per2[pp] = ([i for i in items if i[0] not in ('draw', 'flow')], [i for i in items if i[0] in ('draw', 'flow')])
+        per2[pp] = ([i for i in items if i[0] not in ('draw', 'flow', 'q', 'qfn')],
+                    [i for i in items if i[0] in ('draw', 'flow', 'q')] + sorted(i for i in items if i[0] == 'qfn'))
     return per2, sorted(bundles), order
 
 
@@ -358,6 +361,113 @@ def diff_runs(p, a, b, single_clock):
 
 def is_single(p):
     return not p['tempos']
+
+
+# ------------------------------------------------------------------ quantisation API (TempoClock) from inside routines
+# Not in the Coq model: every result is a logged value, every played child's first logical time is observed; two fresh NRT
+# runs and the RT run under jitter (where every routine is physically late) must give identical logs.
+QUANT_PROG = {'tempos': ['16'], 'bodies': [
+    [['P', 1, ['T', 0]], ['Y', '1/2']],
+    [['cb', 0], ['nb', 0], ['pnb', 2, 0], ['ntg', 0, '1', '0'], ['ttnb', 0, '1'], ['Y', '1'], ['nb', 0], ['bar', 0], ['ntg', 0, '2', '1/2'],
+     ['PQ', 2, ['T', 0], '2', '1/2'], ['Y', '3'], ['cb', 0], ['nb', 0], ['pnb', 2, 0], ['bpb', 0, '2'], ['nb', 0], ['sch', ['T', 0], '1/2'],
+     ['scha', 0, '1'], ['Y', '1'], ['nb', 0], ['CP', 2, 0, '1'], ['newc', '32']],
+    [['cb', 0], ['Y', '1/2']]], 'nconds': 0, 'nflows': 0, 'mseed': 1, 'tail': '0', 'shared': []}
+
+
+def gen_quant_prog(rng):
+    nt = rng.choice([1, 1, 2])
+    tempos = [rng.choice(['16', '32', '64']) for _ in range(nt)]
+    bodies = [None]
+    idx = {}
+    for i in range(nt):
+        idx[i] = (1 + 3 * i, 2 + 3 * i, 3 + 3 * i)       # worker, rich leaf (same clock only), plain leaf
+        bodies += [None, None, None]
+    sleaf = len(bodies)
+    bodies.append([['Y', '1/64']])                        # a leaf for SystemClock
+    for i in range(nt):
+        w, rich, plain = idx[i]
+        bodies[rich] = [['cb', i], ['nb', i], ['Y', rng.choice(['1/2', '1'])], ['nb', i], ['bar', i]]
+        bodies[plain] = [['cb', i]]
+        body = []
+        ny = 0
+        for _ in range(rng.randint(6, 16)):
+            r = rng.random()
+            if r < 0.2 and ny < 5:
+                ny += 1
+                body.append(['Y', rng.choice(['1/4', '1/2', '1', '1', '3/2', '2', '3', '4'])])
+            elif r < 0.32:
+                body.append(['nb', i])
+            elif r < 0.38:
+                body.append(['nbb', i, rng.choice(['0', '1', '5/2', '4', '8', '7/2'])])
+            elif r < 0.48:
+                body.append(['ntg', i, rng.choice(['0', '1', '2', '4', '1/2']), rng.choice(['0', '0', '1/2', '1', '-1/2', '-1'])])
+            elif r < 0.54:
+                body.append(['ttnb', i, rng.choice(['1', '2', '4'])])
+            elif r < 0.6:
+                body.append(['bar', i])
+            elif r < 0.66:
+                body.append(['cb', i])
+            elif r < 0.72:
+                body.append(['bpb', rng.randrange(nt) if rng.random() < 0.15 else i, rng.choice(['1', '2', '3', '4', '4'])])
+            elif r < 0.8:
+                body.append(['pnb', rich, i])
+            elif r < 0.88:
+                q_, ph = rng.choice(['0', '1', '2', '4']), rng.choice(['0', '0', '1/2', '1'])
+                t = rng.random()
+                if t < 0.6:
+                    body.append(['PQ', rich, ['T', i], q_, ph])
+                elif t < 0.8 and nt > 1:
+                    j = (i + 1) % nt
+                    body.append(['PQ', idx[j][2], ['T', j], q_, ph])
+                else:
+                    body.append(['PQ', sleaf, 'S', q_, ph])
+            elif r < 0.92:
+                body.append(['CP', rich, i, rng.choice(['0', '1', '2', '4'])])
+            elif r < 0.97:
+                if rng.random() < 0.5:
+                    body.append(['sch', rng.choice([['T', i], 'S']), rng.choice(['0', '1/4', '1/2', '1'])])
+                else:
+                    body.append(['scha', i, rng.choice(['0', '1/2', '1', '2'])])
+            else:
+                body.append(['newc', rng.choice(['16', '32'])])
+        bodies[w] = body
+    bodies[0] = [['P', idx[i][0], ['T', i]] for i in range(nt)] + [['Y', '1/64']]
+    return {'tempos': tempos, 'bodies': bodies, 'nconds': 0, 'nflows': 0, 'mseed': rng.randint(0, 99), 'tail': '0', 'shared': []}
+
+
+def quant_part(ctx, c):
+    cases = [QUANT_PROG] + [gen_quant_prog(ctx.rng) for _ in range(ctx.n(60, 400))]
+    A, B = par([lambda: impl_tagged(ctx, 'qA', {'cases': cases}, 'nrt', hashseed='77'),
+                lambda: impl_tagged(ctx, 'qB', {'cases': cases}, 'nrt', hashseed='88')])
+    R = run_rt(ctx, cases, k=5)
+    c.evaluations += 3 * len(cases)
+    for p, a, b, r in zip(cases, A, B, R):
+        if 'fatal' in a or 'fatal' in b or 'fatal' in r:
+            c.failures.append(Failure('correspondence', 'quantisation program could not be run: %s' % (a.get('fatal') or b.get('fatal') or r.get('fatal'))[:600],
+                                      replay={'program': p}))
+            continue
+        for key in ('events', 'vals', 'errors'):
+            if a[key] != b[key]:
+                c.failures.append(Failure('correspondence', 'two fresh NRT runs of a program using the TempoClock quantisation API differ in %s. Program: %s'
+                                          % (key, json.dumps(p)), theorem='seeded_run_deterministic', found_input=True,
+                                          replay={'program': p, 'first': a[key], 'second': b[key]}))
+                break
+        for v in a['vals']:
+            if v[0] == 'q':
+                c.count('quant:' + v[3])
+        if not r.get('completed'):
+            c.count('quant:rt not-completed-in-time (machine load); not compared')
+            continue
+        c.nontriv(('quant', json.dumps(p, sort_keys=True)))
+        d = diff_runs(p, a, r, False)
+        if d is None and a['errors'] != r['errors']:
+            d = 'errors differ: %s vs %s' % (a['errors'], r['errors'])
+        if d:
+            c.failures.append(Failure('correspondence', 'TempoClock quantisation API called from inside routines: the RT run under jitter differs from the NRT run: %s. Program: %s'
+                                      % (d[:1500], json.dumps(p)), theorem='rt_nrt_agree', found_input=True,
+                                      replay={'program': p, 'nrt_vals': a['vals'], 'rt_vals': r['vals'], 'nrt_events': a['events'],
+                                              'rt_events': r['events'], 'difference': d,
+                                              'how': 'SC3_MODE=nrt|rt PYTHONPATH=$SC3_REPO:/verif/harness python harness/impl/c10_script.py in.json out.json'}))
 
 
 # ------------------------------------------------------------------ correspondence
@@ -576,6 +686,9 @@ def correspond(ctx):
                 c.known_demonstrated.append((SIG_CROSS, text))
     except fw.ImplError as e:
         c.notes.append('cross-clock experiment not run: %s' % str(e)[:200])
+
+    # (d) the quantisation API of TempoClock (logged values; no model)
+    quant_part(ctx, c)
 
     c.rule = ('script programs (nested routines on SystemClock/TempoClocks, tempo changes, pause/resume, Condition wait/signal, FlowVar, rand_seed and draws '
               'through the builtin random functions, bundle sends) compiled to real generator functions; (a) two fresh NRT processes: scores byte-identical, '
